@@ -4,7 +4,9 @@
 From Passage Require Import Lib.Bytes Codec.VarInt Codec.Desc Gen.PacketsGen Gen.ConstsGen
   Codec.PacketCheck Conn.Types Conn.Prog.
 
-Inductive inev := IFrame (id : Z) (body : bytes) | IEof.
+(* IBadLen: the reader refused a frame whose declared length is <= 0 or exceeds the maximum
+   (byte level; produced by Conn/Reader.v, never by a frame-level script) *)
+Inductive inev := IFrame (id : Z) (body : bytes) | IEof | IBadLen.
 Definition inbox := list (Z * inev).         (* arrival time (ms), event; times non-decreasing *)
 
 (* per-run environment: adapter results with their latency (ms), fresh values, wall clock *)
@@ -165,6 +167,7 @@ Section Sem.
           | (tr, Some (dl', ka', nka')) =>
               match ev with
               | IEof => (tr ++ [(t', TEnd (OErr KClosed))], KEnd (OErr KClosed))
+              | IBadLen => (tr ++ [(t', TEnd (OErr KIllegalLen))], KEnd (OErr KIllegalLen))
               | IFrame id body =>
                   match conf_frame info ka' id body with
                   | FEnd o => (tr ++ [(t', TRecv id body); (t', TEnd o)], KEnd o)
@@ -196,6 +199,7 @@ Section Sem.
         match next_frame s with
         | None => [(s_now s, TEnd OHang)]
         | Some (t, IEof, s') => [(t, TEnd (OErr KClosed))]
+        | Some (t, IBadLen, s') => [(t, TEnd (OErr KIllegalLen))]
         | Some (t, IFrame id body, s') =>
             if negb (len_ok cfg id body) then [(t, TRecv id body); (t, TEnd (OErr KIllegalLen))]
             else (t, TRecv id body) :: exec (k id body) s'
